@@ -89,6 +89,14 @@ def npAll (flens : List Nat) (pl length : Nat) : Nat → NPCur → List (List Se
 def Cfg.sections (c : Cfg) (i : Nat) : List Sect :=
   (npAll c.flens c.pl c.flens.sum c.n {}).getD i []
 
+/-- Messages a peer can send (the subset the model interprets). -/
+inductive Msg
+  | have (i : Nat) | bitfield (bits : List Bool) (nbytes : Nat) | haveAll | haveNone
+  | allowedFast (i : Nat) | choke | unchoke | interested | notInterested
+  | request (i b l : Nat) | reject (i b l : Nat) | cancel (i b l : Nat)
+  | piece (i b l : Nat) (good : Bool)
+  deriving Repr, Inhabited
+
 structure Peer where
   k : Nat
   ip : String
@@ -102,7 +110,7 @@ structure Peer where
   has : List Bool := []                -- pe.Bitfield
   recvAF : List Nat := []              -- ReceivedAllowedFast
   sentAF : List Nat := []              -- SentAllowedFast
-  queued : List (String × Nat × List Bool) := []   -- messages kept until metadata/pieces are ready
+  queued : List Msg := []              -- pe.Messages: kept until metadata and pieces are ready
   extHS : Bool := false
   extMeta : Bool := false              -- extension handshake advertised ut_metadata
   extSize : Nat := 0
@@ -397,6 +405,136 @@ def firstMessages (s : St) (p : Peer) : List String :=
     | none => if p.fast then ["havenone"] else []
   bfMsg ++ (if p.ext then ["exths"] else [])
 
+/-! ### Peer messages -/
+
+
+def numBytes (n : Nat) : Nat := (n + 7) / 8
+
+/-- `handlePieceMessage(pm)` -/
+def handlePieceMessage (m : M) (k i b l : Nat) (good : Bool) : M :=
+  let s := m.1
+  if !s.loaded || s.bf.isNone then closePeerM m k
+  else if i ≥ s.n then closePeerM m k
+  else
+  match s.findDl k with
+  | none => m
+  | some d =>
+    if d.piece ≠ i then m else
+    let blocks := s.cfg.blocks.getD i []
+    if !(blocks.contains (b, l)) then closePeerM m k
+    else if d.doneBlocks.contains b then m
+    else
+      let d' : Dl := { d with doneBlocks := b :: d.doneBlocks, good := d.good && good }
+      let m := onSt m fun s => { s with dls := s.dls.map fun x => if x.k = k then d' else x }
+      if d'.doneBlocks.length ≠ blocks.length then m
+      else
+        let m := onSt m (·.closeDl k)
+        let m := if m.1.wflag.getD i false then onSt m (·.crash "piece is already writing") else m
+        let m := onSt m fun s => { s with wflag := setAt s.wflag i true }
+        let m := onSt m (·.startDlFor k)
+        onSt m fun s => { s with writing := some { piece := i, src := k, good := d'.good, gen := s.gen } }
+
+def haveOne (m : M) (k i : Nat) : M :=
+  -- piecePicker.HandleHave only while a picker exists (not completed)
+  if m.1.loaded && !m.1.completed then
+    onSt m (·.updPeer k fun p => { p with has := setAt p.has i true })
+  else m
+
+/-- Messages that need the metadata are queued before it is known. -/
+def needsInfo : Msg → Bool
+  | .have _ | .bitfield _ _ | .haveAll | .allowedFast _ => true
+  | _ => false
+
+def handlePeerMessage (m : M) (k : Nat) (msg : Msg) : M :=
+  let s := m.1
+  let ready := s.loaded && s.bf.isSome
+  match msg with
+  | .have i =>
+    if !ready then onSt m (·.updPeer k fun p => { p with queued := p.queued ++ [msg] })
+    else if i ≥ s.n then closePeerM m k
+    else onSt (updateInterested (haveOne m k i) k) (·.startDlFor k)
+  | .bitfield bits nbytes =>
+    if !ready then onSt m (·.updPeer k fun p => { p with queued := p.queued ++ [msg] })
+    else if nbytes = 0 then m
+    else if nbytes ≠ numBytes s.n then closePeerM m k
+    else
+      let m := (List.range s.n).foldl (fun m i => if bits.getD i false then haveOne m k i else m) m
+      onSt (updateInterested m k) (·.startDlFor k)
+  | .haveAll =>
+    if !ready then onSt m (·.updPeer k fun p => { p with queued := p.queued ++ [msg] })
+    else
+      let m := (List.range s.n).foldl (fun m i => haveOne m k i) m
+      onSt (updateInterested m k) (·.startDlFor k)
+  | .haveNone => m
+  | .allowedFast i =>
+    if !ready then onSt m (·.updPeer k fun p => { p with queued := p.queued ++ [msg] })
+    else if i ≥ s.n then closePeerM m k
+    else if s.loaded && !s.completed then
+      onSt m (·.updPeer k fun p => { p with recvAF := if p.recvAF.contains i then p.recvAF else p.recvAF ++ [i] })
+    else m
+  | .unchoke =>
+    let m := onSt m (·.updPeer k fun p => { p with peerChoking := false })
+    match s.findDl k with
+    | none => onSt m (·.startDlFor k)
+    | some d =>
+      if d.af then m
+      else onSt m fun s => { s with dls := s.dls.map fun x => if x.k = k then { x with choked := false } else x }
+  | .choke =>
+    let m := onSt m (·.updPeer k fun p => { p with peerChoking := true })
+    match s.findDl k with
+    | none => m
+    | some d =>
+      if d.af then m
+      else
+        let m := onSt m fun s => { s with dls := s.dls.map fun x => if x.k = k then { x with choked := true, snub := false } else x }
+        onSt m (·.startDls)
+  | .interested => onSt m (·.updPeer k fun p => { p with peerInterested := true })
+  | .notInterested => onSt m (·.updPeer k fun p => { p with peerInterested := false })
+  | .request i b l =>
+    if !ready then closePeerM m k
+    else if i ≥ s.n then closePeerM m k
+    else if !(l ≠ 0 ∧ b + l ≤ s.cfg.plens.getD i 0) then closePeerM m k
+    else
+      match s.findPeer k with
+      | none => m
+      | some p =>
+        if !(s.done.getD i false) then send m k s!"reject:{i}:{b}:{l}"
+        else if p.clientChoking then
+          if p.fast then
+            if p.sentAF.contains i then send m k s!"piece:{i}:{b}:{l}:ok" else send m k s!"reject:{i}:{b}:{l}"
+          else m
+        else send m k s!"piece:{i}:{b}:{l}:ok"
+  | .reject i b l =>
+    if !ready then closePeerM m k
+    else if i ≥ s.n then closePeerM m k
+    else
+      match s.findDl k with
+      | none => m
+      | some d =>
+        if d.piece ≠ i then m
+        else if !((s.cfg.blocks.getD i []).contains (b, l)) then closePeerM m k
+        else m
+  | .cancel i b l =>
+    if !ready then closePeerM m k
+    else if i ≥ s.n then m
+    else
+      match s.findPeer k with
+      | some p => if p.fast then send m k s!"reject:{i}:{b}:{l}" else m
+      | none => m
+  | .piece i b l good => handlePieceMessage m k i b l good
+
+/-- `processQueuedMessages()` (torrent_peer.go): replay, peer by peer, what arrived before the pieces were
+ready.  A peer that gets closed while its messages are replayed is skipped from then on (the fix for
+finding C08-F1; the pre-fix code went on replaying into the closed peer). -/
+def processQueued (m : M) : M :=
+  let ks := m.1.peers.map (·.k)
+  ks.foldl (fun m k =>
+    match m.1.findPeer k with
+    | none => m
+    | some p =>
+      let m := onSt m (·.updPeer k fun p => { p with queued := [] })
+      p.queued.foldl (fun m msg => if (m.1.findPeer k).isSome then handlePeerMessage m k msg else m) m) m
+
 /-- `markPaddingPieces()` (fix for finding C10-F2): pieces without any block are done once their hash
 matches zeroes — which it does for the true content, padding being zeroes. -/
 def St.markPaddingPieces (s : St) : St :=
@@ -414,7 +552,7 @@ def handleAllocationDone (m : M) (hasExisting hasMissing : Bool) : M :=
     { s with allocator := false, openFiles := data, loaded := true, gen := s.gen + 1,
              done := List.replicate s.n false, wflag := List.replicate s.n false,
              peers := s.peers.map fun p => { p with has := List.replicate s.n false } }
-  let ready (m : M) : M := onSt m fun s => ({ s with acceptor := true }).startDls
+  let ready (m : M) : M := onSt (processQueued m) fun s => ({ s with acceptor := true }).startDls
   let fresh (m : M) : M :=
     let m := onSt m fun s => (({ s with bf := some (List.replicate s.n false) }).resetCompletion).markPaddingPieces
     let (s, c) := m.1.checkCompletion
@@ -449,7 +587,7 @@ def handleVerificationDone (m : M) : M :=
     let (s, c) := m.1.checkCompletion
     let m : M := (s, m.2)
     if c && m.1.cfg.stopAfter then onSt m (·.stop false)
-    else onSt m fun s => ({ s with acceptor := true }).startDls
+    else onSt (processQueued m) fun s => ({ s with acceptor := true }).startDls
 
 /-- `start()` (torrent_start.go) -/
 def start (m : M) : M :=
@@ -526,130 +664,6 @@ def runWorkers : Nat → M → M
       match s.writing with
       | some w => if !s.gateWrite || !w.good then runWorkers fuel (writerRun m w) else m
       | none => m
-
-/-! ### Peer messages -/
-
-inductive Msg
-  | have (i : Nat) | bitfield (bits : List Bool) (nbytes : Nat) | haveAll | haveNone
-  | allowedFast (i : Nat) | choke | unchoke | interested | notInterested
-  | request (i b l : Nat) | reject (i b l : Nat) | cancel (i b l : Nat)
-  | piece (i b l : Nat) (good : Bool)
-  deriving Repr, Inhabited
-
-def numBytes (n : Nat) : Nat := (n + 7) / 8
-
-/-- `handlePieceMessage(pm)` -/
-def handlePieceMessage (m : M) (k i b l : Nat) (good : Bool) : M :=
-  let s := m.1
-  if !s.loaded || s.bf.isNone then closePeerM m k
-  else if i ≥ s.n then closePeerM m k
-  else
-  match s.findDl k with
-  | none => m
-  | some d =>
-    if d.piece ≠ i then m else
-    let blocks := s.cfg.blocks.getD i []
-    if !(blocks.contains (b, l)) then closePeerM m k
-    else if d.doneBlocks.contains b then m
-    else
-      let d' : Dl := { d with doneBlocks := b :: d.doneBlocks, good := d.good && good }
-      let m := onSt m fun s => { s with dls := s.dls.map fun x => if x.k = k then d' else x }
-      if d'.doneBlocks.length ≠ blocks.length then m
-      else
-        let m := onSt m (·.closeDl k)
-        let m := if m.1.wflag.getD i false then onSt m (·.crash "piece is already writing") else m
-        let m := onSt m fun s => { s with wflag := setAt s.wflag i true }
-        let m := onSt m (·.startDlFor k)
-        onSt m fun s => { s with writing := some { piece := i, src := k, good := d'.good, gen := s.gen } }
-
-def haveOne (m : M) (k i : Nat) : M :=
-  -- piecePicker.HandleHave only while a picker exists (not completed)
-  if m.1.loaded && !m.1.completed then
-    onSt m (·.updPeer k fun p => { p with has := setAt p.has i true })
-  else m
-
-/-- Messages that need the metadata are queued before it is known. -/
-def needsInfo : Msg → Bool
-  | .have _ | .bitfield _ _ | .haveAll | .allowedFast _ => true
-  | _ => false
-
-def handlePeerMessage (m : M) (k : Nat) (msg : Msg) : M :=
-  let s := m.1
-  let ready := s.loaded && s.bf.isSome
-  match msg with
-  | .have i =>
-    if !ready then m   -- queued (replay is modelled by the magnet suite)
-    else if i ≥ s.n then closePeerM m k
-    else onSt (updateInterested (haveOne m k i) k) (·.startDlFor k)
-  | .bitfield bits nbytes =>
-    if !ready then m
-    else if nbytes = 0 then m
-    else if nbytes ≠ numBytes s.n then closePeerM m k
-    else
-      let m := (List.range s.n).foldl (fun m i => if bits.getD i false then haveOne m k i else m) m
-      onSt (updateInterested m k) (·.startDlFor k)
-  | .haveAll =>
-    if !ready then m
-    else
-      let m := (List.range s.n).foldl (fun m i => haveOne m k i) m
-      onSt (updateInterested m k) (·.startDlFor k)
-  | .haveNone => m
-  | .allowedFast i =>
-    if !ready then m
-    else if i ≥ s.n then closePeerM m k
-    else if s.loaded && !s.completed then
-      onSt m (·.updPeer k fun p => { p with recvAF := if p.recvAF.contains i then p.recvAF else p.recvAF ++ [i] })
-    else m
-  | .unchoke =>
-    let m := onSt m (·.updPeer k fun p => { p with peerChoking := false })
-    match s.findDl k with
-    | none => onSt m (·.startDlFor k)
-    | some d =>
-      if d.af then m
-      else onSt m fun s => { s with dls := s.dls.map fun x => if x.k = k then { x with choked := false } else x }
-  | .choke =>
-    let m := onSt m (·.updPeer k fun p => { p with peerChoking := true })
-    match s.findDl k with
-    | none => m
-    | some d =>
-      if d.af then m
-      else
-        let m := onSt m fun s => { s with dls := s.dls.map fun x => if x.k = k then { x with choked := true, snub := false } else x }
-        onSt m (·.startDls)
-  | .interested => onSt m (·.updPeer k fun p => { p with peerInterested := true })
-  | .notInterested => onSt m (·.updPeer k fun p => { p with peerInterested := false })
-  | .request i b l =>
-    if !ready then closePeerM m k
-    else if i ≥ s.n then closePeerM m k
-    else if !(l ≠ 0 ∧ b + l ≤ s.cfg.plens.getD i 0) then closePeerM m k
-    else
-      match s.findPeer k with
-      | none => m
-      | some p =>
-        if !(s.done.getD i false) then send m k s!"reject:{i}:{b}:{l}"
-        else if p.clientChoking then
-          if p.fast then
-            if p.sentAF.contains i then send m k s!"piece:{i}:{b}:{l}:ok" else send m k s!"reject:{i}:{b}:{l}"
-          else m
-        else send m k s!"piece:{i}:{b}:{l}:ok"
-  | .reject i b l =>
-    if !ready then closePeerM m k
-    else if i ≥ s.n then closePeerM m k
-    else
-      match s.findDl k with
-      | none => m
-      | some d =>
-        if d.piece ≠ i then m
-        else if !((s.cfg.blocks.getD i []).contains (b, l)) then closePeerM m k
-        else m
-  | .cancel i b l =>
-    if !ready then closePeerM m k
-    else if i ≥ s.n then m
-    else
-      match s.findPeer k with
-      | some p => if p.fast then send m k s!"reject:{i}:{b}:{l}" else m
-      | none => m
-  | .piece i b l good => handlePieceMessage m k i b l good
 
 /-- Extension handshake (`ExtensionHandshakeMessage` branch of handlePeerMessage). -/
 def handleExtHandshake (m : M) (k : Nat) (hasMeta : Bool) (size : Nat) : M :=
